@@ -22,7 +22,8 @@ ASSUMPTIONS = [
 ]
 TRUSTED_BASE = ["xml.etree.ElementTree as independent parser"]
 
-TAGS = ["a", "b", "item", "node", "Value", "x1", "on", "xs", "n"]
+TAGS = ["a", "b", "item", "node", "Value", "x1", "on", "xs", "n", "INCLUDE", "INCLUDES", "_opts", "BLOCKCOMMENT1",
+        "LINECOMMENT2", "_content", "_attributes", "_xOpts"]
 NS_URI = "http://example.org/ns"
 
 
